@@ -19,6 +19,7 @@ func C07(c *Ctx) {
 	r.Rule("C07-i", "InitialNames of each kind includes, on every path, the InitialNames of every operand evaluated at the start position (table in DESIGN.md §3 C07)")
 	r.Rule("C07-n", "NullableVisit / IsNullable of each kind return the value required by the table (constant, any-of, all-of, operand's) and keep the stored flag equal to the returned value")
 	r.Rule("C07-v", "IsNullable reads flags that only NullableVisit stores, and InitialNames consults IsNullable of sequence items: therefore NullableVisit of a kind must visit (call NullableVisit on) every operand whose InitialNames the kind's own InitialNames includes, on every path — a constant result or a short-circuit must not skip the visit")
+	r.Rule("C07-r", "Rule.NullableVisit is the cycle cut of the nullable pass: a rule that is being visited answers false without descending; otherwise Visited is set before and cleared after the visit of the rule's expression, whose answer is stored in Nullable and returned")
 	r.Rule("C07-e", "error discipline of the detection pipeline: every call in package builder to a function of that package returning an error (PrepareGrammar, ComputeLeftRecursives, findLeader, FindCyclesInSCC) is followed by `if err != nil { return … }` with exactly that condition, so an analysis that gave up never reads as 'no left recursion'")
 	r.Rule("C07-b", "buildParser: `if !b.supportLeftRecursion && haveLeftRecursion { return error wrapping ErrHaveLeftRecursion }` precedes every write; PrepareGrammar = ComputeNullables then ComputeLeftRecursives; MakeFirstGraph stores rule.InitialNames() for every rule; ComputeLeftRecursives marks every member of an SCC of size > 1 and every self-loop and reports haveLeftRecursion for both")
 
@@ -64,6 +65,7 @@ func C07(c *Ctx) {
 	}
 	r.MinRule("C07-i", 18)
 	r.MinRule("C07-n", 18)
+	c07RuleVisit(c, g)
 	c07Wiring(c, g)
 	c07Errors(c, g)
 }
@@ -663,4 +665,59 @@ func c07Errors(c *Ctx, g *load.G) {
 		})
 	}
 	r.Min("C07-e error sites", 3, n)
+}
+
+// c07RuleVisit: the visited-flag protocol of Rule.NullableVisit (rule C07-r).
+func c07RuleVisit(c *Ctx, g *load.G) {
+	r := c.R
+	fd := load.FuncDecl(g.Pkg("ast"), "Rule", "NullableVisit")
+	if fd == nil || fd.Body == nil {
+		r.Fatal("anchor ast.Rule.NullableVisit not found")
+		return
+	}
+	rv := recvName(fd)
+	arg := firstParam(fd)
+	visit := rv + ".Expr.NullableVisit(" + arg + ")"
+	var bad []string
+	nCut, nVisit := 0, 0
+	for _, p := range enumPaths(fd.Body) {
+		if eg := extraGuards(p, rv+".Visited"); len(eg) > 0 {
+			bad = append(bad, "the visit depends on `"+strings.Join(eg, "`, `")+"`")
+			continue
+		}
+		last := p[len(p)-1]
+		switch {
+		case p.has("+", rv+".Visited"):
+			nCut++
+			if p.has("call", visit) {
+				bad = append(bad, "a rule that is already being visited is visited again: the nullable pass does not terminate on a recursive grammar")
+			}
+			if last.Kind != "return" || last.Text != "false" {
+				bad = append(bad, "a rule that is already being visited answers `"+last.Text+"` instead of false (a rule on its own left edge is considered non-nullable)")
+			}
+		case p.has("-", rv+".Visited"):
+			nVisit++
+			iSet := p.index("assign", rv+".Visited=true", 0)
+			iCall := p.index("call", visit, 0)
+			iStore := p.index("assign", rv+".Nullable="+visit, 0)
+			iClr := p.index("assign", rv+".Visited=false", 0)
+			switch {
+			case iCall < 0 || iStore < 0:
+				bad = append(bad, "the rule's expression is not visited, or its answer is not stored in "+rv+".Nullable: rule references read a stale flag")
+			case iSet < 0 || iSet > iCall:
+				bad = append(bad, rv+".Visited is not set before the expression is visited: a recursive rule is visited without end")
+			case iClr < 0 || iClr < iCall:
+				bad = append(bad, rv+".Visited is not cleared after the visit: every later visit of the rule is taken for a cycle and answers false")
+			}
+			if last.Kind != "return" || last.Text != rv+".Nullable" {
+				bad = append(bad, "the visit returns `"+last.Text+"` instead of the stored flag")
+			}
+		default:
+			bad = append(bad, "a path does not test "+rv+".Visited")
+		}
+	}
+	if nCut == 0 || nVisit == 0 {
+		bad = append(bad, fmt.Sprintf("%d cycle-cut paths and %d visiting paths, expected at least one of each", nCut, nVisit))
+	}
+	r.Check(len(bad) == 0, "C07-r", "G.ast.Rule.NullableVisit:visited-protocol", "", g.Where(fd.Pos()), "Visited → false; else set, visit, store, clear, return the flag", strings.Join(uniq(bad), "; "))
 }
